@@ -667,14 +667,6 @@ def run(ctx):
 
     # ---------------- oracle only: arbitrary floats, non-dyadic epsilons ----------------
     fstats = {}
-    nfl = ctx.scale(400, 6000)
-    for _ in range(nfl):
-        cfg, mode = gen_cfg(rng, float_mode=True)
-        ops = gen_ops(rng, cfg, rng.randrange(2, 41), float_mode=True)
-        for box in (True, False):
-            _, fails = check_history(cfg, box, ops, float_boxes=True, stats=fstats)
-            ctx.count()
-            report_history_failures(ctx, cfg, box, ops, True, fails, reported)
     # adjacent floats on either side of a box boundary: largest float below k*eps and its successor
     nb = 0
     kmax = ctx.scale(200, 2000)
@@ -696,6 +688,14 @@ def run(ctx):
                             reported.add(key)
                             ctx.violation(key, what, pair_replay(cfg, a, b, True))
     ctx.count(nb)
+    nfl = ctx.scale(400, 6000)
+    for _ in range(nfl):
+        cfg, mode = gen_cfg(rng, float_mode=True)
+        ops = gen_ops(rng, cfg, rng.randrange(2, 41), float_mode=True)
+        for box in (True, False):
+            _, fails = check_history(cfg, box, ops, float_boxes=True, stats=fstats)
+            ctx.count()
+            report_history_failures(ctx, cfg, box, ops, True, fails, reported)
     npf = ctx.scale(3000, 40000)
     for _ in range(npf):
         cfg, mode = gen_cfg(rng, float_mode=True)
